@@ -330,7 +330,15 @@ def run_case(acc, c: dict, monitors: List[Callable], nontrivial: Optional[Callab
             stalled = res.outcome == "hang" or res.forced
             if acc.selfcheck < SELFCHECK_PER_SHARD:
                 acc.selfcheck += 1
-                res2 = run_one(tuple(c_ for _, _, c_ in res.choices))
+                full = tuple(c_ for _, _, c_ in res.choices)
+                res2 = run_one(full)
+                if (H.canon_trace(res2.trace) != H.canon_trace(res.trace) or res2.outcome != res.outcome) and not (res.forced or res2.forced):
+                    # one of the two may have been disturbed by the machine (overload): the schedule must replay identically twice in a row
+                    res3, res4 = run_one(full), run_one(full)
+                    if H.canon_trace(res3.trace) == H.canon_trace(res4.trace) and res3.outcome == res4.outcome and H.canon_trace(res3.trace) in (
+                            H.canon_trace(res.trace), H.canon_trace(res2.trace)):
+                        res2 = res if H.canon_trace(res3.trace) == H.canon_trace(res.trace) else res2
+                        res = res3
                 if H.canon_trace(res2.trace) != H.canon_trace(res.trace) or res2.outcome != res.outcome:
                     raise H.HarnessError(f"non-deterministic replay of {c} prefix {prefix}:\n{jsonable(res.trace)}\nvs\n{jsonable(res2.trace)}")
             view = View(prog, res, sel, pre, debug_on, None, lines, state["ns"]["__src_file__"], ref=ref0)
